@@ -212,6 +212,9 @@ def syntax_cause(h, r) -> str:
     has_layers = isinstance(snap, list) and snap and snap[0] == "doc" and (snap[5] or snap[10])
     if has_layers and h.info.get("wrapper") in docs.CALL_WRAPPERS:
         return "let-in-call-argument"
+    if r.op[0] == "set" and "#" in r.op[2] and any(("{ " in ln and ln.rstrip().endswith("}")) or ln.count(";") > 1
+                                                      for ln in r.out.split("\n") if "#" in ln):
+        return "line-comment-value-in-one-line-set"
     return "other"
 
 
